@@ -61,158 +61,163 @@ def run(index, rep, tier):
     rep.rule("R02.4", "NeXML tree vocabulary: every tag written is looked up by the reader and every data-carrying attribute written for otus/otu/trees/tree/node/edge is read back; value spellings agree")
 
     # ---- R02.1
-    cfgd = protect_rule(index, rep, "R02.1", TREE_WRITERS, 14)
-    esc = index.function(NP + ".escape_nexus_token")
-    ifs = [n for n in esc.node.body if isinstance(n, ast.If)]
-    main = [i for i in ifs if "preserve_spaces" in norm(i.test)]
-    if not main:
-        raise AnalysisError("R02.1: escape_nexus_token branch structure not recognised")
-    main = main[0]
-    t1 = norm(main.test)
-    conds = [norm(v) for v in main.test.values] if isinstance(main.test, ast.BoolOp) and isinstance(main.test.op, ast.And) else []
-    ok = "not preserve_spaces" in conds and "'_' not in label" in conds and any("re.search(protect_regex, label)" in c and c.startswith("not") for c in conds)
-    rep.check(ok, "R02.1", esc.qualname, "space->underscore branch condition", fn_where(esc, main),
-              "spaces are converted to underscores only when spaces need not be preserved, the label has no underscore and no protected character",
-              "escape_nexus_token converts spaces to underscores under `%s`: a label that already contains an underscore or a protected character (or whose spaces must be preserved) would be altered on re-reading" % t1)
-    el = main.orelse[0] if main.orelse and isinstance(main.orelse[0], ast.If) else None
-    econds = [norm(v) for v in el.test.values] if el is not None and isinstance(el.test, ast.BoolOp) and isinstance(el.test.op, ast.Or) else []
-    ok = any(c == "re.search(protect_regex, label)" for c in econds) and "' ' in label" in econds and any("quote_underscores" in c and "'_' in label" in c for c in econds)
-    rep.check(ok, "R02.1", esc.qualname, "quoting branch condition", fn_where(esc, el if el is not None else main),
-              "labels are quoted when they contain a protected character, a space, or (when requested) an underscore",
-              "escape_nexus_token's quoting condition `%s` no longer covers protected characters, spaces and underscores" % (norm(el.test) if el is not None else None))
+    with rep.section("R02.1"):
+        cfgd = protect_rule(index, rep, "R02.1", TREE_WRITERS, 14)
+        esc = index.function(NP + ".escape_nexus_token")
+        ifs = [n for n in esc.node.body if isinstance(n, ast.If)]
+        main = [i for i in ifs if "preserve_spaces" in norm(i.test)]
+        if not main:
+            raise AnalysisError("R02.1: escape_nexus_token branch structure not recognised")
+        main = main[0]
+        t1 = norm(main.test)
+        conds = [norm(v) for v in main.test.values] if isinstance(main.test, ast.BoolOp) and isinstance(main.test.op, ast.And) else []
+        ok = "not preserve_spaces" in conds and "'_' not in label" in conds and any("re.search(protect_regex, label)" in c and c.startswith("not") for c in conds)
+        rep.check(ok, "R02.1", esc.qualname, "space->underscore branch condition", fn_where(esc, main),
+                  "spaces are converted to underscores only when spaces need not be preserved, the label has no underscore and no protected character",
+                  "escape_nexus_token converts spaces to underscores under `%s`: a label that already contains an underscore or a protected character (or whose spaces must be preserved) would be altered on re-reading" % t1)
+        el = main.orelse[0] if main.orelse and isinstance(main.orelse[0], ast.If) else None
+        econds = [norm(v) for v in el.test.values] if el is not None and isinstance(el.test, ast.BoolOp) and isinstance(el.test.op, ast.Or) else []
+        ok = any(c == "re.search(protect_regex, label)" for c in econds) and "' ' in label" in econds and any("quote_underscores" in c and "'_' in label" in c for c in econds)
+        rep.check(ok, "R02.1", esc.qualname, "quoting branch condition", fn_where(esc, el if el is not None else main),
+                  "labels are quoted when they contain a protected character, a space, or (when requested) an underscore",
+                  "escape_nexus_token's quoting condition `%s` no longer covers protected characters, spaces and underscores" % (norm(el.test) if el is not None else None))
 
-    # the conversion in the first branch is character-for-character
-    conv = [n for n in main.body if isinstance(n, ast.Assign) and norm(n.targets[0]) == "label"]
-    ok = False
-    how = norm(conv[0].value) if conv else None
-    if conv:
-        v = conv[0].value
-        ok = True
-        while isinstance(v, ast.Call) and isinstance(v.func, ast.Attribute) and v.func.attr == "replace":
-            a = [const_value(x) for x in v.args]
-            ok = ok and len(a) == 2 and all(isinstance(x, str) and len(x) == 1 for x in a) and a[1] == "_"
-            v = v.func.value
-        ok = ok and isinstance(v, ast.Name) and v.id == "label"
-    rep.check(ok, "R02.1", esc.qualname, "space conversion `%s`" % how, fn_where(esc, conv[0] if conv else main),
-              "unquoted labels are converted character for character (each space/tab -> one underscore)",
-              "escape_nexus_token converts an unquoted label with `%s`, which is not a character-for-character replacement by underscores: runs of spaces (or leading/trailing ones) are collapsed and the label read back differs" % how)
+        # the conversion in the first branch is character-for-character
+        conv = [n for n in main.body if isinstance(n, ast.Assign) and norm(n.targets[0]) == "label"]
+        ok = False
+        how = norm(conv[0].value) if conv else None
+        if conv:
+            v = conv[0].value
+            ok = True
+            while isinstance(v, ast.Call) and isinstance(v.func, ast.Attribute) and v.func.attr == "replace":
+                a = [const_value(x) for x in v.args]
+                ok = ok and len(a) == 2 and all(isinstance(x, str) and len(x) == 1 for x in a) and a[1] == "_"
+                v = v.func.value
+            ok = ok and isinstance(v, ast.Name) and v.id == "label"
+        rep.check(ok, "R02.1", esc.qualname, "space conversion `%s`" % how, fn_where(esc, conv[0] if conv else main),
+                  "unquoted labels are converted character for character (each space/tab -> one underscore)",
+                  "escape_nexus_token converts an unquoted label with `%s`, which is not a character-for-character replacement by underscores: runs of spaces (or leading/trailing ones) are collapsed and the label read back differs" % how)
 
     # ---- R02.5 symbol lookup precedence
-    rep.rule("R02.5", "taxon symbol lookup precedence: a TRANSLATE token is consulted before labels and taxon numbers, as the writer's translate tables require")
-    lk = index.function(NP + ".NexusTaxonSymbolMapper.lookup_taxon_symbol")
-    order = []
-    for n in sorted((x for x in ast.walk(lk.node) if isinstance(x, ast.Attribute)), key=lambda x: (x.lineno, x.col_offset)):
-        if n.attr in ("token_taxon_map", "label_taxon_map", "number_taxon_map", "number_taxon_label_map") and n.attr not in order:
-            order.append(n.attr)
-    rep.check(bool(order) and order[0] == "token_taxon_map" and len(order) >= 2, "R02.5", lk.qualname, "lookup order %s" % order, fn_where(lk),
-              "lookup order: %s" % order,
-              "NexusTaxonSymbolMapper.lookup_taxon_symbol consults %s: a TRANSLATE token that equals another taxon's label (numeric labels!) resolves to the wrong taxon, silently permuting the leaf-to-taxon assignment of translated NEXUS trees" % order)
+    with rep.section("R02.5 symbol lookup precedence"):
+        rep.rule("R02.5", "taxon symbol lookup precedence: a TRANSLATE token is consulted before labels and taxon numbers, as the writer's translate tables require")
+        lk = index.function(NP + ".NexusTaxonSymbolMapper.lookup_taxon_symbol")
+        order = []
+        for n in sorted((x for x in ast.walk(lk.node) if isinstance(x, ast.Attribute)), key=lambda x: (x.lineno, x.col_offset)):
+            if n.attr in ("token_taxon_map", "label_taxon_map", "number_taxon_map", "number_taxon_label_map") and n.attr not in order:
+                order.append(n.attr)
+        rep.check(bool(order) and order[0] == "token_taxon_map" and len(order) >= 2, "R02.5", lk.qualname, "lookup order %s" % order, fn_where(lk),
+                  "lookup order: %s" % order,
+                  "NexusTaxonSymbolMapper.lookup_taxon_symbol consults %s: a TRANSLATE token that equals another taxon's label (numeric labels!) resolves to the wrong taxon, silently permuting the leaf-to-taxon assignment of translated NEXUS trees" % order)
 
     # ---- R02.2
-    qc = cfgd["quote_chars"]
-    ok = qc == {"'"} and cfgd["escape_quote_by_doubling"] is True
-    rep.check(ok, "R02.2", NP + ".NexusTokenizer.__init__", "quote chars %s doubling %s" % (sorted(qc), cfgd["escape_quote_by_doubling"]), "src/dendropy/dataio/nexusprocessing.py:1",
-              "tokenizer: quote character ' with escape by doubling", "the NEXUS tokenizer's quote configuration is %s / doubling=%s" % (sorted(qc), cfgd["escape_quote_by_doubling"]))
-    consts = [n.value for n in ast.walk(esc.node) if isinstance(n, ast.Constant) and isinstance(n.value, str)]
-    splits = [c for c in calls_in(esc.node) if call_name(c) == "split" and c.args and const_value(c.args[0]) == "'"]
-    joins = [c for c in calls_in(esc.node) if call_name(c) == "join" and isinstance(c.func.value, ast.Constant) and c.func.value.value == "''"]
-    wraps = any(c in ("'{}'",) for c in consts) or any(isinstance(n, ast.BinOp) and isinstance(n.op, ast.Add) and const_value(n.left if not isinstance(n.left, ast.BinOp) else n.left.left) == "'" for n in ast.walk(esc.node))
-    rep.check(bool(splits) and bool(joins) and wraps, "R02.2", esc.qualname, "writer doubles embedded quotes", fn_where(esc),
-              "escape_nexus_token wraps in ' and joins the '-split pieces with ''", "escape_nexus_token no longer doubles embedded single quotes inside a single-quoted token")
-    # tokenizer honours the flag: the un-doubling branch exists
-    tk = index.function("dendropy.dataio.tokenizer.Tokenizer.__next__")
-    ok = any(isinstance(n, ast.If) and norm(n.test) == "self.escape_quote_by_doubling"
-             for m in index.methods_of("dendropy.dataio.tokenizer.Tokenizer") for n in ast.walk(m.node))
-    rep.check(ok, "R02.2", tk.qualname, "un-doubling branch", fn_where(tk), "Tokenizer.__next__ un-doubles quotes when escape_quote_by_doubling is set",
-              "Tokenizer.__next__ no longer tests escape_quote_by_doubling")
+    with rep.section("R02.2"):
+        qc = cfgd["quote_chars"]
+        ok = qc == {"'"} and cfgd["escape_quote_by_doubling"] is True
+        rep.check(ok, "R02.2", NP + ".NexusTokenizer.__init__", "quote chars %s doubling %s" % (sorted(qc), cfgd["escape_quote_by_doubling"]), "src/dendropy/dataio/nexusprocessing.py:1",
+                  "tokenizer: quote character ' with escape by doubling", "the NEXUS tokenizer's quote configuration is %s / doubling=%s" % (sorted(qc), cfgd["escape_quote_by_doubling"]))
+        consts = [n.value for n in ast.walk(esc.node) if isinstance(n, ast.Constant) and isinstance(n.value, str)]
+        splits = [c for c in calls_in(esc.node) if call_name(c) == "split" and c.args and const_value(c.args[0]) == "'"]
+        joins = [c for c in calls_in(esc.node) if call_name(c) == "join" and isinstance(c.func.value, ast.Constant) and c.func.value.value == "''"]
+        wraps = any(c in ("'{}'",) for c in consts) or any(isinstance(n, ast.BinOp) and isinstance(n.op, ast.Add) and const_value(n.left if not isinstance(n.left, ast.BinOp) else n.left.left) == "'" for n in ast.walk(esc.node))
+        rep.check(bool(splits) and bool(joins) and wraps, "R02.2", esc.qualname, "writer doubles embedded quotes", fn_where(esc),
+                  "escape_nexus_token wraps in ' and joins the '-split pieces with ''", "escape_nexus_token no longer doubles embedded single quotes inside a single-quoted token")
+        # tokenizer honours the flag: the un-doubling branch exists
+        tk = index.function("dendropy.dataio.tokenizer.Tokenizer.__next__")
+        ok = any(isinstance(n, ast.If) and norm(n.test) == "self.escape_quote_by_doubling"
+                 for m in index.methods_of("dendropy.dataio.tokenizer.Tokenizer") for n in ast.walk(m.node))
+        rep.check(ok, "R02.2", tk.qualname, "un-doubling branch", fn_where(tk), "Tokenizer.__next__ un-doubles quotes when escape_quote_by_doubling is set",
+                  "Tokenizer.__next__ no longer tests escape_quote_by_doubling")
 
     # ---- R02.3
-    wt = index.function(NW + "._write_tree")
-    emitted = set()
-    for n in ast.walk(wt.node):
-        if isinstance(n, ast.Constant) and isinstance(n.value, str):
-            m = re.match(r"^\[(&[A-Za-z])( \{\})?\]\s*$", n.value)
-            if m:
-                emitted.add(m.group(1))
-    rep.floor("R02.3", "comment tokens emitted by NewickWriter._write_tree", 3, len(emitted))
-    pc = index.function(NR + "._process_tree_comments")
-    recognised = set()
-    prefixes = set()
-    for n in ast.walk(pc.node):
-        if isinstance(n, ast.Compare) and type(n.ops[0]).__name__ == "In" and isinstance(n.comparators[0], (ast.List, ast.Tuple, ast.Set)):
-            recognised |= {const_value(e) for e in n.comparators[0].elts if isinstance(const_value(e), str)}
-        if isinstance(n, ast.Call) and call_name(n) == "startswith" and n.args and isinstance(const_value(n.args[0]), str):
-            prefixes.add(const_value(n.args[0]))
-    for tok in sorted(emitted):
-        ok = tok in recognised or any(p.strip() == tok for p in prefixes)
-        rep.check(ok, "R02.3", pc.qualname, "emitted token %s recognised" % tok, fn_where(pc), "writer token [%s] is recognised by the reader" % tok,
-                  "NewickWriter emits the tree comment token [%s ...] but NewickReader._process_tree_comments recognises only %s / prefixes %s: the rooting state or weight is lost on re-reading" % (tok, sorted(recognised), sorted(prefixes)))
-    pr = index.function(NR + "._parse_tree_rooting_state")
-    interpreted = set()
-    for n in ast.walk(pr.node):
-        if isinstance(n, ast.Compare) and norm(n.left) == "rooting_comment" and isinstance(n.comparators[0], ast.Constant):
-            interpreted.add(n.comparators[0].value)
-    for tok in sorted(t for t in recognised if t.lower() in ("&r", "&u")):
-        rep.check(tok in interpreted, "R02.3", pr.qualname, "rooting token %s interpreted" % tok, fn_where(pr), "recognised token %s is mapped to a rooting state" % tok,
-                  "the reader recognises the rooting token %s but _parse_tree_rooting_state does not interpret it" % tok)
-    # polarity: &R -> True, &U -> False
-    pol = {}
-    for n in ast.walk(pr.node):
-        if isinstance(n, ast.If):
-            toks = [c.comparators[0].value for c in ast.walk(n.test) if isinstance(c, ast.Compare) and norm(c.left) == "rooting_comment" and isinstance(c.comparators[0], ast.Constant)]
-            if toks and n.body and isinstance(n.body[0], ast.Return):
-                for t in toks:
-                    pol[t] = const_value(n.body[0].value)
-    ok = all(pol.get(t) is (t.lower() == "&r") for t in pol) and len(pol) >= 2
-    rep.check(ok, "R02.3", pr.qualname, "rooting polarity %s" % pol, fn_where(pr), "&R -> rooted, &U -> unrooted", "the rooting tokens are interpreted with the wrong polarity: %s" % pol)
-    # writer polarity
-    wpol = {}
-    for n in ast.walk(wt.node):
-        if isinstance(n, ast.If):
-            cur = n
-            while isinstance(cur, ast.If):
-                if cur.body and isinstance(cur.body[0], ast.Assign) and isinstance(cur.body[0].value, ast.Constant) and isinstance(cur.body[0].value.value, str) \
-                        and (cur.body[0].value.value.strip() == "" or cur.body[0].value.value.strip().startswith("[&")):
-                    wpol[norm(cur.test)] = cur.body[0].value.value.strip()
-                cur = cur.orelse[0] if cur.orelse and isinstance(cur.orelse[0], ast.If) else None
-    ok = wpol.get("tree.is_rooted") == "[&R]" and wpol.get("not tree.is_rooted") == "[&U]" and any(v == "" for k, v in wpol.items() if "undefined" in k or "suppress_rooting" in k)
-    rep.check(ok, "R02.3", wt.qualname, "writer rooting polarity %s" % wpol, fn_where(wt), "rooted trees get [&R], unrooted [&U], undefined/suppressed nothing",
-              "NewickWriter._write_tree maps rooting states to tokens as %s" % wpol)
+    with rep.section("R02.3"):
+        wt = index.function(NW + "._write_tree")
+        emitted = set()
+        for n in ast.walk(wt.node):
+            if isinstance(n, ast.Constant) and isinstance(n.value, str):
+                m = re.match(r"^\[(&[A-Za-z])( \{\})?\]\s*$", n.value)
+                if m:
+                    emitted.add(m.group(1))
+        rep.floor("R02.3", "comment tokens emitted by NewickWriter._write_tree", 3, len(emitted))
+        pc = index.function(NR + "._process_tree_comments")
+        recognised = set()
+        prefixes = set()
+        for n in ast.walk(pc.node):
+            if isinstance(n, ast.Compare) and type(n.ops[0]).__name__ == "In" and isinstance(n.comparators[0], (ast.List, ast.Tuple, ast.Set)):
+                recognised |= {const_value(e) for e in n.comparators[0].elts if isinstance(const_value(e), str)}
+            if isinstance(n, ast.Call) and call_name(n) == "startswith" and n.args and isinstance(const_value(n.args[0]), str):
+                prefixes.add(const_value(n.args[0]))
+        for tok in sorted(emitted):
+            ok = tok in recognised or any(p.strip() == tok for p in prefixes)
+            rep.check(ok, "R02.3", pc.qualname, "emitted token %s recognised" % tok, fn_where(pc), "writer token [%s] is recognised by the reader" % tok,
+                      "NewickWriter emits the tree comment token [%s ...] but NewickReader._process_tree_comments recognises only %s / prefixes %s: the rooting state or weight is lost on re-reading" % (tok, sorted(recognised), sorted(prefixes)))
+        pr = index.function(NR + "._parse_tree_rooting_state")
+        interpreted = set()
+        for n in ast.walk(pr.node):
+            if isinstance(n, ast.Compare) and norm(n.left) == "rooting_comment" and isinstance(n.comparators[0], ast.Constant):
+                interpreted.add(n.comparators[0].value)
+        for tok in sorted(t for t in recognised if t.lower() in ("&r", "&u")):
+            rep.check(tok in interpreted, "R02.3", pr.qualname, "rooting token %s interpreted" % tok, fn_where(pr), "recognised token %s is mapped to a rooting state" % tok,
+                      "the reader recognises the rooting token %s but _parse_tree_rooting_state does not interpret it" % tok)
+        # polarity: &R -> True, &U -> False
+        pol = {}
+        for n in ast.walk(pr.node):
+            if isinstance(n, ast.If):
+                toks = [c.comparators[0].value for c in ast.walk(n.test) if isinstance(c, ast.Compare) and norm(c.left) == "rooting_comment" and isinstance(c.comparators[0], ast.Constant)]
+                if toks and n.body and isinstance(n.body[0], ast.Return):
+                    for t in toks:
+                        pol[t] = const_value(n.body[0].value)
+        ok = all(pol.get(t) is (t.lower() == "&r") for t in pol) and len(pol) >= 2
+        rep.check(ok, "R02.3", pr.qualname, "rooting polarity %s" % pol, fn_where(pr), "&R -> rooted, &U -> unrooted", "the rooting tokens are interpreted with the wrong polarity: %s" % pol)
+        # writer polarity
+        wpol = {}
+        for n in ast.walk(wt.node):
+            if isinstance(n, ast.If):
+                cur = n
+                while isinstance(cur, ast.If):
+                    if cur.body and isinstance(cur.body[0], ast.Assign) and isinstance(cur.body[0].value, ast.Constant) and isinstance(cur.body[0].value.value, str) \
+                            and (cur.body[0].value.value.strip() == "" or cur.body[0].value.value.strip().startswith("[&")):
+                        wpol[norm(cur.test)] = cur.body[0].value.value.strip()
+                    cur = cur.orelse[0] if cur.orelse and isinstance(cur.orelse[0], ast.If) else None
+        ok = wpol.get("tree.is_rooted") == "[&R]" and wpol.get("not tree.is_rooted") == "[&U]" and any(v == "" for k, v in wpol.items() if "undefined" in k or "suppress_rooting" in k)
+        rep.check(ok, "R02.3", wt.qualname, "writer rooting polarity %s" % wpol, fn_where(wt), "rooted trees get [&R], unrooted [&U], undefined/suppressed nothing",
+                  "NewickWriter._write_tree maps rooting states to tokens as %s" % wpol)
 
     # ---- R02.4
-    rtags = reader_tags(index)
-    rep.floor("R02.4", "tags the NeXML reader looks up", 15, len(rtags))
-    pairs = [
-        ("_write_taxon_namespace", [XR + ".NexmlReader._parse_taxon_namespaces"]),
-        ("_write_tree_list", [XR + ".NexmlReader._parse_tree_list"]),
-        ("_write_tree", [XR + "._NexmlTreeParser.build_tree"]),
-        ("_write_node", [XR + "._NexmlTreeParser._parse_nodes"]),
-        ("_write_edge", [XR + "._NexmlTreeParser._parse_edge_info"]),
-    ]
-    nattr = 0
-    for wname, rnames in pairs:
-        wfi = index.function(XW + "." + wname)
-        tags, attrs, values = written_vocab(wfi)
-        rattrs = set()
-        for rn in rnames:
-            rattrs |= read_attrs(index.function(rn))
-        for t in sorted(tags):
-            rep.check(t in rtags, "R02.4", wfi.qualname, "tag <%s> not looked up by the reader" % t, fn_where(wfi), "tag <%s> written by %s is looked up by the reader" % (t, wname),
-                      "NexmlWriter.%s writes the element <%s>, which the NeXML reader never looks up (it knows %s)" % (wname, t, sorted(rtags)))
-        for a in sorted(attrs):
-            nattr += 1
-            if (wname, a) in (("_write_tree", "id"),):
-                rep.ob("R02.4", fn_where(wfi), "attribute id of <tree>: identifier only, nothing refers to a tree by id (exempt)", True, nontrivial=False)
-                continue
-            rep.check(a in rattrs, "R02.4", wfi.qualname, "attribute %s not read back" % a, fn_where(wfi), "attribute %s written by %s is read by %s" % (a, wname, [r.rsplit(".", 1)[1] for r in rnames]),
-                      "NexmlWriter.%s writes the attribute `%s` but the corresponding reader function(s) %s read only %s: that datum does not survive the round trip" % (wname, a, [r.rsplit(".", 1)[1] for r in rnames], sorted(rattrs)))
-        if "root" in values:
-            pn = index.function(XR + "._NexmlTreeParser._parse_nodes")
-            accepted = set()
-            for n in ast.walk(pn.node):
-                if isinstance(n, ast.Compare) and type(n.ops[0]).__name__ == "In" and isinstance(n.comparators[0], (ast.Tuple, ast.List, ast.Set)) and "rooting" in norm(n.left):
-                    accepted |= {const_value(e) for e in n.comparators[0].elts}
-            for v in values["root"]:
-                rep.check(v.lower() in accepted, "R02.4", wfi.qualname, 'root="%s" accepted by reader' % v, fn_where(wfi), 'root="%s" is one of the reader\'s accepted spellings %s' % (v, sorted(accepted)),
-                          'the writer marks the root with root="%s" but the reader accepts only %s' % (v, sorted(accepted)))
-    rep.floor("R02.4", "attributes written for tree-side NeXML elements", 15, nattr)
+    with rep.section("R02.4"):
+        rtags = reader_tags(index)
+        rep.floor("R02.4", "tags the NeXML reader looks up", 15, len(rtags))
+        pairs = [
+            ("_write_taxon_namespace", [XR + ".NexmlReader._parse_taxon_namespaces"]),
+            ("_write_tree_list", [XR + ".NexmlReader._parse_tree_list"]),
+            ("_write_tree", [XR + "._NexmlTreeParser.build_tree"]),
+            ("_write_node", [XR + "._NexmlTreeParser._parse_nodes"]),
+            ("_write_edge", [XR + "._NexmlTreeParser._parse_edge_info"]),
+        ]
+        nattr = 0
+        for wname, rnames in pairs:
+            wfi = index.function(XW + "." + wname)
+            tags, attrs, values = written_vocab(wfi)
+            rattrs = set()
+            for rn in rnames:
+                rattrs |= read_attrs(index.function(rn))
+            for t in sorted(tags):
+                rep.check(t in rtags, "R02.4", wfi.qualname, "tag <%s> not looked up by the reader" % t, fn_where(wfi), "tag <%s> written by %s is looked up by the reader" % (t, wname),
+                          "NexmlWriter.%s writes the element <%s>, which the NeXML reader never looks up (it knows %s)" % (wname, t, sorted(rtags)))
+            for a in sorted(attrs):
+                nattr += 1
+                if (wname, a) in (("_write_tree", "id"),):
+                    rep.ob("R02.4", fn_where(wfi), "attribute id of <tree>: identifier only, nothing refers to a tree by id (exempt)", True, nontrivial=False)
+                    continue
+                rep.check(a in rattrs, "R02.4", wfi.qualname, "attribute %s not read back" % a, fn_where(wfi), "attribute %s written by %s is read by %s" % (a, wname, [r.rsplit(".", 1)[1] for r in rnames]),
+                          "NexmlWriter.%s writes the attribute `%s` but the corresponding reader function(s) %s read only %s: that datum does not survive the round trip" % (wname, a, [r.rsplit(".", 1)[1] for r in rnames], sorted(rattrs)))
+            if "root" in values:
+                pn = index.function(XR + "._NexmlTreeParser._parse_nodes")
+                accepted = set()
+                for n in ast.walk(pn.node):
+                    if isinstance(n, ast.Compare) and type(n.ops[0]).__name__ == "In" and isinstance(n.comparators[0], (ast.Tuple, ast.List, ast.Set)) and "rooting" in norm(n.left):
+                        accepted |= {const_value(e) for e in n.comparators[0].elts}
+                for v in values["root"]:
+                    rep.check(v.lower() in accepted, "R02.4", wfi.qualname, 'root="%s" accepted by reader' % v, fn_where(wfi), 'root="%s" is one of the reader\'s accepted spellings %s' % (v, sorted(accepted)),
+                              'the writer marks the root with root="%s" but the reader accepts only %s' % (v, sorted(accepted)))
+        rep.floor("R02.4", "attributes written for tree-side NeXML elements", 15, nattr)
